@@ -19,6 +19,18 @@ pub const VERIF_DIR: &str = "/verif";
 thread_local! {
     static LAST_PANIC: RefCell<Option<(String, String)>> = const { RefCell::new(None) };
     static QUIET: std::cell::Cell<bool> = const { std::cell::Cell::new(false) };
+    /// (watchdog slot of this worker, batch start): lets long harness-side work (minimisation) renew its allowance
+    static HEARTBEAT: RefCell<Option<(Arc<Vec<(AtomicU64, AtomicU64)>>, usize, Instant)>> = const { RefCell::new(None) };
+}
+
+/// Renews the calling worker's watchdog allowance. Called between minimisation candidates, so that each
+/// candidate execution -- not the whole minimisation -- is what must finish within the hang limit.
+pub fn heartbeat() {
+    HEARTBEAT.with(|h| {
+        if let Some((slots, w, t0)) = h.borrow().as_ref() {
+            slots[*w].1.store(t0.elapsed().as_millis() as u64, Ordering::SeqCst);
+        }
+    });
 }
 
 pub fn install_panic_hook() {
@@ -346,12 +358,15 @@ pub fn minimise<S: Scenario>(s: &S, case: S::Case, class: &str) -> (S::Case, Vio
     let (mut viol, mut cur) = first_with_class(s, &case, class).expect("violation does not reproduce");
     let mut steps = 0u64;
     let mut budget = 4000u32;
+    // wall time only bounds how small the replay gets, never the verdict
+    let started = Instant::now();
     'outer: loop {
         for cand in s.shrink(&cur) {
-            if budget == 0 {
+            if budget == 0 || started.elapsed().as_secs() > 120 {
                 break 'outer;
             }
             budget -= 1;
+            heartbeat();
             if let Some((v, c)) = first_with_class(s, &cand, class) {
                 cur = c;
                 viol = v;
@@ -603,6 +618,7 @@ pub fn run_inner<S: Scenario>(s: S, o: &Opts) -> i32 {
             .spawn(move || {
                 let mut stats = Stats::default();
                 let mut digests = vec![];
+                HEARTBEAT.with(|h| *h.borrow_mut() = Some((slots.clone(), w, t0)));
                 loop {
                     let run = next.fetch_add(1, Ordering::SeqCst);
                     if run >= end {
